@@ -535,14 +535,13 @@ class _BBRepr(Repr):
     """A better repr for builtins, when the built-in repr isn't
     roundtrippable.
     """
-    def __init__(self):
+    def __init__(self, limit=1024):
         super().__init__()
-        # turn off all the length limits (a shortened literal is another
-        # literal: the repr of a T / Path is meant to evaluate to the same thing)
+        # turn up all the length limits very high
         for name in self.__dict__:
             if not isinstance(getattr(self, name), int):
                 continue
-            setattr(self, name, sys.maxsize)
+            setattr(self, name, limit)
 
     def repr1(self, x, level):
         ret = Repr.repr1(self, x, level)
@@ -563,11 +562,15 @@ class _BBRepr(Repr):
 
 
 _bbrepr = recursive_repr()(_BBRepr().repr)
+# for the arguments of T / Path steps there are no limits at all: a shortened
+# literal is another literal, and the repr of a T / Path is meant to evaluate to
+# the same thing (messages and traces keep the limits: they render whole targets)
+_bbrepr_full = recursive_repr()(_BBRepr(sys.maxsize).repr)
 
 
-def bbrepr(obj):
+def bbrepr(obj, full=False):
     try:
-        return _bbrepr(obj)
+        return (_bbrepr_full if full else _bbrepr)(obj)
     except RecursionError:
         # (a container that contains itself, or one nested hundreds of levels
         # deep: reprlib has no cycle check, the builtin repr has)
@@ -586,6 +589,10 @@ class _BBReprFormatter(string.Formatter):
 
 
 bbformat = _BBReprFormatter().format
+
+
+def _bbrepr_arg(obj):
+    return bbrepr(obj, full=True)
 
 
 # TODO: push this back up to boltons with repr kwarg
@@ -814,7 +821,7 @@ def _format_path(t_path, root=None):
         if root is not T and not (path_parts and type(path_parts[0]) is _TRun):
             path_parts.insert(0, _TRun())  # keep the S / A root: Path(S, 'b')
         return 'Path(%s)' % ', '.join([_format_t(part, root if i == 0 else T)
-                                       if type(part) is _TRun else bbrepr(part)
+                                       if type(part) is _TRun else _bbrepr_arg(part)
                                        for i, part in enumerate(path_parts)])
     return _format_t(cur_t_path, root)
 
@@ -1766,8 +1773,8 @@ ROOT = make_sentinel('ROOT')
 
 def _format_slice(x):
     if type(x) is not slice:
-        return bbrepr(x)
-    fmt = lambda v: "" if v is None else bbrepr(v)
+        return _bbrepr_arg(x)
+    fmt = lambda v: "" if v is None else _bbrepr_arg(v)
     if x.step is None:
         return fmt(x.start) + ":" + fmt(x.stop)
     return fmt(x.start) + ":" + fmt(x.stop) + ":" + fmt(x.step)
@@ -1792,7 +1799,7 @@ def _format_t(path, root=T):
         elif op == '(':
             args, kwargs = arg
             # (keyword arguments in the order they were given: the callee sees that order)
-            prepr.append(format_invocation(args=args, kwargs=list(kwargs.items()), repr=bbrepr))
+            prepr.append(format_invocation(args=args, kwargs=list(kwargs.items()), repr=_bbrepr_arg))
         elif op == 'P':
             return _format_path(path, root)
         elif op == 'x':
@@ -1804,7 +1811,7 @@ def _format_t(path, root=T):
                 prepr = ['('] + prepr + [')']
             prepr = ['-' if op == '_' else op] + prepr
         else:  # binary arithmetic operators
-            formatted_arg = bbrepr(arg)
+            formatted_arg = _bbrepr_arg(arg)
             if type(arg) is TType:
                 arg_path = arg.__ops__
                 if any([o in arg_path for o in '+-/%:&|^~_']):
